@@ -14,8 +14,11 @@ REL = 1e-9
 
 
 def sv(kind, x):
-    """SI magnitude of a recorded [value, unit] sample"""
-    return x[0] * S.ffactor(kind, x[1])
+    """SI magnitude of a recorded [value, unit] sample (NaN for a missing or foreign sample)"""
+    try:
+        return x[0] * S.ffactor(kind, x[1])
+    except Exception:  # noqa
+        return float('nan')
 
 
 def close(a, b, abs_tol=0.0, rel=REL):
@@ -96,6 +99,11 @@ def held(row):
     return all(x == 0 for x in row['spd']) and all(x == 0 for x in row['acc'])
 
 
+def held_last(row):
+    """held, as far as the last element's recorded values tell (C03 speaks of the last element only)"""
+    return all(x == 0 for x in row['spd']) and row['acc'][-1] == 0
+
+
 def load_si(sc, t, pos, spd):
     l = sc['load']
     return (l['c0'] + l['ct'] * t + l['cp'] * pos + l['cs'] * spd) * S.ffactor('Torque', l['u'])
@@ -117,8 +125,16 @@ def check_history(pid, sc, res):
     scale_pos = max([abs(x) for r in rows for x in r['pos']] + [1e-9])
     scale_acc = max([abs(x) for r in rows for x in r['acc']] + [1e-9])
     scale_tq = max([abs(x) for r in rows for x in r['tq'] + r['dtq'] + r['ltq']] + [1e-12])
-    if any(math.isnan(x) or math.isinf(x) for r in rows for key in ('pos', 'spd', 'acc', 'tq') for x in r[key]):
-        return out            # overflowed physics: outside every statement's scope
+    if pid == 'C01':
+        for k, r in enumerate(res['rows']):
+            for key in ('pos', 'spd', 'acc'):
+                for i, x in enumerate(r[key]):
+                    if isinstance(x[1], str) and x[1].startswith('missing'):
+                        out.append(W('missing-sample', f'instant {k}: element {i} has no recorded {key} ({x[1]})', sc, instant=k))
+                        return out
+    used = {'C01': ('pos', 'spd', 'acc'), 'C02': ('pos', 'spd', 'tq', 'dtq', 'ltq'), 'C03': ('pos', 'spd', 'tq'), 'C13': ('pos', 'spd', 'tq')}[pid]
+    if any(math.isnan(x) or math.isinf(x) for r in rows for key in used for x in (r[key] if pid in ('C01', 'C02') else r[key][-1:] + r[key][:1])):
+        return out            # overflowed physics or samples another property is about: outside this statement's scope
     if pid == 'C01':
         for k, r in enumerate(rows):
             for i in range(n - 1):
@@ -158,7 +174,7 @@ def check_history(pid, sc, res):
         for e in st:
             J = J * e['ratio'] + e['J']
         for k, r in enumerate(rows):
-            h = held(r)
+            h = held_last(r) if pid == 'C03' else held(r)
             if pid == 'C03' and not (h and selflock):
                 want = r['tq'][-1] / J
                 if not close(r['acc'][-1], want, 1e-300):
@@ -195,7 +211,7 @@ def check_history(pid, sc, res):
                     continue
                 tolw = 1e-12 * max(1.0, scale_spd)
                 if D == 0 and not held(r):
-                    out.append(W('moving-at-zero-duty', f'instant {k}: duty cycle in force 0 but speeds {r["spd"]!r}', sc, instant=k))
+                    out.append(W('moving-at-zero-duty', f'instant {k}: duty cycle in force 0 but speeds {r["spd"]!r}, accelerations {r["acc"]!r}', sc, instant=k))
                     return out
                 if D > 0 and r['spd'][0] < -tolw:
                     out.append(W('driven-by-load', f'instant {k}: duty cycle in force {D!r} > 0 but motor speed {r["spd"][0]!r} < 0', sc, instant=k))
